@@ -12,7 +12,8 @@ QUICK_S = 40
 THOROUGH_S = 600
 RULE = ('seeded scenarios on H-SRV: one hostile connection/peer sends generated hostile input (random bytes; valid frames whose '
         'PDU is truncated, over-long or internally inconsistent; MBAP lengths 0/1/2/65535; unknown sub-functions; zero-length '
-        'PDUs; bit-mutated valid traffic), a second well-behaved connection runs concurrently, a probe connection is opened '
+        'PDUs; bare function codes; well-formed, truncated, extended and bit-mutated requests for every service incl. diagnostics, '
+        'file records and device identification), a second well-behaved connection runs concurrently, a probe connection is opened '
         'afterwards; oracle: (a) nothing escapes a serving loop, (b) every datastore change is the model effect of a request '
         'that ref/receiver.justified() finds in the bytes given, (c) well-behaved and probe requests are answered correctly; '
         'non-trivial = >=1 hostile chunk was delivered; distinct = kernel event-kind sequence + front-end + framing')
@@ -21,7 +22,7 @@ ASSUMPTIONS = ['Twisted: an exception out of dataReceived drops that connection 
                'reference codec/receiver ref/*.py decide which write requests the hostile bytes really contain']
 STUBS = sc.STUBS
 
-KINDS_HOSTILE = ['random', 'trunc_pdu', 'long_pdu', 'inconsistent', 'mbap_len', 'subfunc', 'zero_pdu', 'mutate', 'valid', 'service']
+KINDS_HOSTILE = ['random', 'trunc_pdu', 'long_pdu', 'inconsistent', 'mbap_len', 'subfunc', 'zero_pdu', 'mutate', 'valid', 'service', 'bare_fc']
 
 
 def hostile_item(rng, kind, framing, unit, model, uniq):
@@ -29,6 +30,13 @@ def hostile_item(rng, kind, framing, unit, model, uniq):
     def valid_pdu():
         p = sc.gen_valid(rng, model, uniq)
         return p or bytes([3, 0, 0, 0, 1])
+
+    def any_pdu():
+        # the PDU that is then truncated / extended / mutated: a data-access request or, one time in three,
+        # one of the other services (diagnostics, file records, device identification, ...)
+        if rng.random() < 0.33:
+            return rng.choice(sc.OPAQUE_REQS)
+        return valid_pdu()
     if kind == 'random':
         return bytes(rng.randrange(256) for _ in range(rng.choice([1, 2, 5, 7, 8, 9, 12, 30, 100, 260])))
     if kind == 'valid':
@@ -37,12 +45,16 @@ def hostile_item(rng, kind, framing, unit, model, uniq):
         # a well-formed request for one of the non-data-access services (diagnostics incl. restart,
         # force listen only, clear counters; file records; device identification; ...)
         return codec.frame(framing, unit, rng.choice(sc.OPAQUE_REQS), tid=rng.randrange(65536))
+    if kind == 'bare_fc':
+        # nothing but a function code (every code the library implements, and a few it does not)
+        fc = rng.choice([1, 2, 3, 4, 5, 6, 7, 8, 11, 12, 15, 16, 17, 20, 21, 22, 23, 24, 43, 9, 0x41, 0x7F, 0x80, 0x90, 0xFF])
+        return codec.frame(framing, unit, bytes([fc]), tid=rng.randrange(65536))
     if kind == 'trunc_pdu':
-        p = valid_pdu()
+        p = any_pdu()
         k = rng.randint(1, max(1, len(p) - 1))
         return codec.frame(framing, unit, p[:len(p) - k] or p[:1], tid=rng.randrange(65536))
     if kind == 'long_pdu':
-        p = valid_pdu() + bytes(rng.randrange(256) for _ in range(rng.choice([1, 2, 10])))
+        p = any_pdu() + bytes(rng.randrange(256) for _ in range(rng.choice([1, 2, 10])))
         return codec.frame(framing, unit, p[:253], tid=rng.randrange(65536))
     if kind == 'inconsistent':
         p = sc.gen_invalid(rng, model, uniq) or valid_pdu()
@@ -72,7 +84,7 @@ def hostile_item(rng, kind, framing, unit, model, uniq):
             return b'{' + bytes([unit & 0xFF]) + codec.crc_bytes(bytes([unit & 0xFF])) + b'}'
         return b'\x00'
     if kind == 'mutate':
-        fr = bytearray(codec.frame(framing, unit, valid_pdu(), tid=rng.randrange(65536)))
+        fr = bytearray(codec.frame(framing, unit, any_pdu(), tid=rng.randrange(65536)))
         for _ in range(rng.randint(1, 3)):
             i = rng.randrange(len(fr))
             fr[i] ^= 1 << rng.randrange(8)
